@@ -338,7 +338,8 @@ def py_op(i, op, class_names):
         en = "" if d["enabled"] else ", enabled=False"
         co = ", check_on=icontract.InvariantCheckEvent.%s" % d["check_on"]
         if d["invalid"] == "invariant_with_params":
-            arg = "lambda self, other: True"
+            # a condition that takes anything beyond `self`, variadic parameters included
+            arg = "lambda %s: True" % ["self, other", "self, *others", "self, **others", "*args", "**kwargs", "other"][c["cid"] % 6]
         elif d["invalid"] == "invariant_coroutine":
             helpers_all.append("async def c_%d(self): return True" % c["cid"])
             arg = "c_%d" % c["cid"]
